@@ -204,6 +204,12 @@ def run(ctx):
                 for extra in ([], ["--pin-increments"]):
                     d = rdate()
                     ijobs.append((pat, d, dict(kw(), tag=old_tag), dict(major=False, minor=False, patch=False, tag=new_tag, pin_date=False), d, "cli", extra))
+    # the documented end of the build number scheme (all digits 9): the legacy engine refuses there, as the new one does - it does not go on with another rule
+    for pat in ("{pycalver}", "{year}q{quarter}.{build_no}", "{year}-{month}-{dom}.{bid}", "v{year}{build}{release}"):
+        for nines in ("9999", "99999", "9998"):
+            for mode in ("cli", "lib"):
+                d = rdate()
+                ijobs.append((pat, d, dict(kw(), bid=nines), dict(major=False, minor=False, patch=False, tag="none", pin_date=False), d, mode, []))
     events += drive.pmap(_incr, ijobs, hooks=False, chunksize=100)
     cjobs = []
     from bumpver import v1version
